@@ -32,6 +32,8 @@ def main : IO Unit := do
   IO.println (specJ "FieldU64_ConditionalSelect" FieldU64_ConditionalSelect)
   IO.println (specJ "FieldU64_ConditionalSwap" FieldU64_ConditionalSwap)
   IO.println (specJ "FieldU64_ConditionalAssign" FieldU64_ConditionalAssign)
+  IO.println (specJ "FieldAsm_feMul" FieldAsm_feMul)
+  IO.println (specJ "FieldAsm_fePow2k1" FieldAsm_fePow2k1)
   IO.println (specJ "FieldU32_Mul" FieldU32_Mul)
   IO.println (specJ "FieldU32_Pow2k1" FieldU32_Pow2k1)
   IO.println (specJ "FieldU32_reduce" FieldU32_reduce)
